@@ -305,6 +305,7 @@ def finish(prop, tier, result, level, rule, t0, coverage=None, assumptions=None,
                       % (prop, k))
                 code = max(code, 2)
                 continue
+        v['_confirmed'] = True
         path = write_replay(prop, v)
         print('VIOLATION property=%s replay=%s' % (prop, path))
         print('   clause=%s key=%s' % (v['clause'], v['key']))
@@ -314,6 +315,10 @@ def finish(prop, tier, result, level, rule, t0, coverage=None, assumptions=None,
         if v.get('detail'):
             print('   detail=%s' % _clip(v.get('detail')))
         code = max(code, 1)
+    if code == 2 and any(True for k, v in new.items() if v.get('_confirmed')):
+        # some violations reproduced, another one did not (behaviour that depends on object addresses, e.g. set
+        # iteration order): the reproduced ones decide - exit 1 with their VIOLATION lines
+        code = 1
     cov = dict(coverage or {})
     cov.setdefault('evaluations', int(result.evaluations))
     cov.setdefault('distinct_nontrivial', len(result.sigs))
